@@ -166,7 +166,7 @@ func init() {
 	addMutants(
 		// round-6 seeds on C05
 		mutant{Name: "field-path-of-the-receiver-walked-without-unwrapping", Prop: "C05", File: "interp/value.go", Old: "\t\t\tr = r.Field(i)\n\t\t\tvi, ok := r.Interface().(valueInterface)\n\t\t\tif ok {\n\t\t\t\tr = vi.value\n\t\t\t}\n", New: "\t\t\tr = r.Field(i)\n", Rule: "R05.14", Key: "genValueRecv/receiver-path-walked-through-interface-wrappers"},
-		mutant{Name: "method-depth-only-for-types-declaring-methods", Prop: "C05", File: "interp/cfg.go", Old: "\t\t\t\t\tif isStruct(n.typ) {\n\t\t\t\t\t\t// If a method of the same name exists, use it if it is shallower than the struct field.\n\t\t\t\t\t\t// if method's depth is the same as field's, this is an error.\n\t\t\t\t\t\td := n.typ.methodDepth(n.child[1].ident)\n\t\t\t\t\t\tif d >= 0 && d < len(ti) {", New: "\t\t\t\t\tif isStruct(n.typ) && len(n.typ.method) > 0 {\n\t\t\t\t\t\t// If a method of the same name exists, use it if it is shallower than the struct field.\n\t\t\t\t\t\t// if method's depth is the same as field's, this is an error.\n\t\t\t\t\t\td := n.typ.methodDepth(n.child[1].ident)\n\t\t\t\t\t\tif d >= 0 && d < len(ti) {", Rule: "R05.13", Key: "cfg/selector/depth-comparison#1/whatever-the-type-declares"},
+		mutant{Name: "method-depth-only-for-types-declaring-methods", Prop: "C05", File: "interp/cfg.go", Old: "\t\t\t\t\tif isStruct(n.typ) {\n\t\t\t\t\t\t// If a method of the same name exists, use it if it is shallower than the struct field.\n\t\t\t\t\t\t// if method's depth is the same as field's, this is an error.\n\t\t\t\t\t\t// (The depth of a field is the length of its index path minus one.)\n\t\t\t\t\t\td := n.typ.methodDepth(n.child[1].ident)\n\t\t\t\t\t\tif d >= 0 && d < len(ti)-1 {", New: "\t\t\t\t\tif isStruct(n.typ) && len(n.typ.method) > 0 {\n\t\t\t\t\t\t// If a method of the same name exists, use it if it is shallower than the struct field.\n\t\t\t\t\t\t// if method's depth is the same as field's, this is an error.\n\t\t\t\t\t\t// (The depth of a field is the length of its index path minus one.)\n\t\t\t\t\t\td := n.typ.methodDepth(n.child[1].ident)\n\t\t\t\t\t\tif d >= 0 && d < len(ti)-1 {", Rule: "R05.13", Key: "cfg/selector/depth-comparison#1/whatever-the-type-declares"},
 		mutant{Name: "assertion-status-set-explicitly-one-exit-forgotten", Prop: "C05", File: "interp/run.go", Old: "\t\t\tv, ok := valf.Interface().(valueInterface)\n\t\t\tif ok && v.node == nil {\n\t\t\t\t// The zero valueInterface is the nil value of an interface type.\n\t\t\t\tok = false\n\t\t\t}\n\t\t\tif withOk {\n\t\t\t\tdefer func() { assertStatus(f, value0, value1, setStatus, ok) }()\n\t\t\t}\n\t\t\tif !ok {\n\t\t\t\tif !withOk {\n\t\t\t\t\tpanic(n.cfgErrorf(\"interface conversion: nil is not %v\", typID))\n\t\t\t\t}\n\t\t\t\treturn next\n\t\t\t}\n", New: "\t\t\tv, ok := valf.Interface().(valueInterface)\n\t\t\tif ok && v.node == nil {\n\t\t\t\tok = false\n\t\t\t}\n\t\t\tif !ok {\n\t\t\t\tif !withOk {\n\t\t\t\t\tpanic(n.cfgErrorf(\"interface conversion: nil is not %v\", typID))\n\t\t\t\t}\n\t\t\t\treturn next\n\t\t\t}\n\t\t\tif withOk {\n\t\t\t\tdefer func() { assertStatus(f, value0, value1, setStatus, ok) }()\n\t\t\t}\n", Rule: "R05.12", Key: "typeAssert/closure#1/every-exit-completes-the-two-value-form"},
 		mutant{Name: "benign-assertion-status-explicit-before-return", Prop: "C05", File: "interp/run.go", Old: "\t\t\tv, ok := valf.Interface().(valueInterface)\n\t\t\tif ok && v.node == nil {\n\t\t\t\t// The zero valueInterface is the nil value of an interface type.\n\t\t\t\tok = false\n\t\t\t}\n\t\t\tif withOk {\n\t\t\t\tdefer func() { assertStatus(f, value0, value1, setStatus, ok) }()\n\t\t\t}\n\t\t\tif !ok {\n\t\t\t\tif !withOk {\n\t\t\t\t\tpanic(n.cfgErrorf(\"interface conversion: nil is not %v\", typID))\n\t\t\t\t}\n\t\t\t\treturn next\n\t\t\t}\n", New: "\t\t\tv, ok := valf.Interface().(valueInterface)\n\t\t\tif ok && v.node == nil {\n\t\t\t\tok = false\n\t\t\t}\n\t\t\tif !ok {\n\t\t\t\tif !withOk {\n\t\t\t\t\tpanic(n.cfgErrorf(\"interface conversion: nil is not %v\", typID))\n\t\t\t\t}\n\t\t\t\tassertStatus(f, value0, value1, setStatus, false)\n\t\t\t\treturn next\n\t\t\t}\n\t\t\tif withOk {\n\t\t\t\tdefer func() { assertStatus(f, value0, value1, setStatus, ok) }()\n\t\t\t}\n", Benign: true},
 	)
